@@ -232,3 +232,46 @@ def exits_of(ev: Evaluator, fi: FuncInfo):
     rets = [e for e in ev.events if e.kind in ('return', 'fallthrough') and (e.func is fi or e.data.get('func') is fi)]
     raises = [e for e in ev.events if e.kind == 'raise']
     return rets, raises
+
+
+# --------------------------------------------------------------------------- element-type (dtype) closure, shared by the numeric properties
+def dt_function(ctx, rule: str, qualname: str, arrays, consts=None, what=None, inline=None):
+    """DT1/DT2 (dtypes.py) over one library function evaluated with caller-typed arrays: real values are never stored into, or cast to,
+    a buffer that keeps the caller's element type"""
+    from .. import dtypes
+    fi = ctx.prog.func(qualname)
+    args: Dict[str, Val] = {}
+    a = fi.node.args
+    params = fi.params()
+    defaults = dict(zip(params[len(params) - len(a.defaults):], a.defaults))
+    for p in params:
+        if consts and p in consts:
+            args[p] = consts[p]
+        elif p in arrays:
+            args[p] = arr_param(p, length=sym.sym('L:' + (arrays[p] if isinstance(arrays, dict) else p)))
+        elif p in defaults and isinstance(defaults[p], ast.Constant) and (isinstance(defaults[p].value, (str, bool)) or defaults[p].value is None):
+            args[p] = Const(defaults[p].value)
+        else:
+            args[p] = S(p)
+    ev = Evaluator(ctx.prog, inline=inline or inline_except(*SCANS), opaque_kind=REPO_RESULT_KIND)
+    star = Term('param', (Const('**' + a.kwarg.arg),), kind='dict') if a.kwarg else None
+    ev.run_function(fi, args=args, star_kwargs=star)
+    n = dtypes.check_events(ctx, ev, rule, what or fi.name, fi)
+    return n
+
+
+def dt_weaver(ctx, rule: str, wm, methods):
+    from .. import dtypes
+    n = 0
+    for m in methods:
+        mf = wm.methods.get(m)
+        if mf is None:
+            continue
+        n += dtypes.check_events(ctx, mf.ev, rule, f"Weaver.{m}", mf.fi)
+    return n
+
+
+DT_RULE = ('the float domain is entered once and never left: no real-valued result is stored in place into, or cast to the element type of, a buffer that '
+           'keeps the caller\'s dtype (integer-typed input is ordinary: Weaver(None, y) builds an integer abscissa itself); decided on the element-type '
+           'shadow of the evaluated function (dtypes.py): buffers created with dtype=float / zeros / linspace are float, asarray / copy / tile / '
+           'zeros_like / v.dtype inherit')
